@@ -27,7 +27,12 @@ class Ctx:
     def __init__(self, pid, tier, seed, replay=None):
         self.pid, self.tier, self.seed, self.replay = pid, tier, seed, replay
         self.t0 = time.time()
-        self.work = os.path.join(WORK, "%s-%s" % (pid, tier))
+        scratch = os.path.realpath(REPO) != "/repo"
+        suffix = ("-" + hashlib.sha1(os.path.realpath(REPO).encode()).hexdigest()[:8]) if scratch else ""
+        self.work = os.path.join(WORK, "%s-%s%s" % (pid, tier, suffix))
+        # runs against a scratch worktree (seeded changes) must not overwrite the evidence of the real tree
+        self.evid_dir = self.work if scratch else EVID
+        self.replay_dir = os.path.join(self.work, "replays") if scratch else REPLAYS
         shutil.rmtree(self.work, ignore_errors=True)
         os.makedirs(self.work, exist_ok=True)
         os.makedirs(EVID, exist_ok=True)
@@ -369,8 +374,8 @@ def load_findings(pid):
 
 
 def save_replay(ctx, name, payload):
-    os.makedirs(REPLAYS, exist_ok=True)
-    path = os.path.join(REPLAYS, "%s-%s.json" % (ctx.pid, re.sub(r"[^\w.-]+", "_", name)[:80]))
+    os.makedirs(ctx.replay_dir, exist_ok=True)
+    path = os.path.join(ctx.replay_dir, "%s-%s.json" % (ctx.pid, re.sub(r"[^\w.-]+", "_", name)[:80]))
     with open(path, "w") as f:
         json.dump(payload, f, indent=1, default=str)
     return path
@@ -430,7 +435,7 @@ def finish(ctx, level, coverage, assumptions):
     cov.setdefault("notes", ctx.notes)
     ev = {"property_id": ctx.pid, "tier": ctx.tier, "seed": ctx.seed, "level": level, "coverage": cov,
           "assumptions": assumptions, "wall_s": round(time.time() - ctx.t0, 1), "violations": len(shown)}
-    with open(os.path.join(EVID, ctx.pid + ".json"), "w") as f:
+    with open(os.path.join(ctx.evid_dir, ctx.pid + ".json"), "w") as f:
         json.dump(ev, f, indent=1, default=str)
     rc = 1 if new else 0
     ctx.log("done: %s (violations=%d known=%d) wall=%.0fs" % ("FAIL" if rc else "ok", len(shown), len(seen_known), time.time() - ctx.t0))
@@ -442,6 +447,6 @@ def fail_inconclusive(ctx, level, msg):
     ev = {"property_id": ctx.pid, "tier": ctx.tier, "seed": ctx.seed, "level": level,
           "coverage": {"evaluations": 0, "distinct_nontrivial": 0, "rule": "run was inconclusive: " + msg, "samples": []},
           "assumptions": [], "wall_s": round(time.time() - ctx.t0, 1), "violations": 0}
-    with open(os.path.join(EVID, ctx.pid + ".json"), "w") as f:
+    with open(os.path.join(ctx.evid_dir, ctx.pid + ".json"), "w") as f:
         json.dump(ev, f, indent=1)
     return 2
